@@ -3,7 +3,7 @@
 // Every item here is `external_body`: the real indexmap crate is trusted to meet its documented behaviour:
 //   * the entries are kept in insertion order; `insert` of a NEW key appends at the end and returns None,
 //     `insert` of a PRESENT key replaces the value in place (position kept) and returns the old value;
-//   * `get_mut(&k)` borrows the value stored under `k` (keys compared with `Eq`, which for the derived
+//   * `get(&k)` / `get_mut(&k)` borrow the value stored under `k` (keys compared with `Eq`, which for the derived
 //     impls used here is structural equality); nothing else changes;
 //   * `get_index(i)` / `get_index_mut(i)` address the i-th entry in insertion order;
 //   * `iter()` yields every entry once, in insertion order.
@@ -50,6 +50,14 @@ pub mod omap {
         { unimplemented!() }
 
         #[verifier::external_body]
+        pub fn get(&self, key: &K) -> (r: Option<&V>)
+            ensures match r {
+                Some(v) => has_key(self.entries(), *key) && *v == self.entries()[key_index(self.entries(), *key)].1,
+                None => !has_key(self.entries(), *key),
+            }
+        { unimplemented!() }
+
+        #[verifier::external_body]
         pub fn get_index(&self, index: usize) -> (r: Option<(&K, &V)>)
             ensures match r {
                 Some(kv) => index < self.entries().len()
@@ -75,6 +83,22 @@ pub mod omap {
                         *(#[trigger] r.rest()[i]).0 == self.entries()[i].0 && *r.rest()[i].1 == self.entries()[i].1,
         { unimplemented!() }
     }
+    /// `for (k, v) in &map` is `map.iter()` (indexmap: `impl IntoIterator for &IndexMap`)
+    impl<'a, K, V> IntoIterator for &'a IndexMap<K, V> {
+        type Item = (&'a K, &'a V);
+        type IntoIter = MapIter<'a, K, V>;
+        #[verifier::external_body]
+        fn into_iter(self) -> (r: MapIter<'a, K, V>)
+            ensures r.rest().len() == self.entries().len(),
+                    forall|i: int| 0 <= i < self.entries().len() ==>
+                        *(#[trigger] r.rest()[i]).0 == self.entries()[i].0 && *r.rest()[i].1 == self.entries()[i].1,
+        { unimplemented!() }
+    }
+    /// radix-rust `index_map_with_capacity(n)`: an empty map (the capacity is only an allocation hint)
+    #[verifier::external_body]
+    pub fn index_map_with_capacity<K, V>(n: usize) -> (r: IndexMap<K, V>)
+        ensures r.entries() == Seq::<(K, V)>::empty()
+    { unimplemented!() }
     impl<K, V> Default for IndexMap<K, V> {
         #[verifier::external_body]
         fn default() -> (r: Self) ensures r.entries() == Seq::<(K, V)>::empty() { unimplemented!() }
